@@ -191,7 +191,12 @@ func thinInvokeWrapper(g *ssa.Function, method string) (int, bool) {
 	if g == nil || len(g.Blocks) != 1 {
 		return 0, false
 	}
-	inv := findInvokes(g, method, false)
+	var inv []ssa.CallInstruction
+	for _, c := range callsIn(g, false) {
+		if c.Common().IsInvoke() && (method == "" || c.Common().Method.Name() == method) {
+			inv = append(inv, c)
+		}
+	}
 	if len(inv) != 1 {
 		return 0, false
 	}
@@ -211,7 +216,7 @@ func stepCalls(fn *ssa.Function, method string) []stepCall {
 	var out []stepCall
 	for _, c := range callsIn(fn, false) {
 		if c.Common().IsInvoke() {
-			if c.Common().Method.Name() == method {
+			if method == "" || c.Common().Method.Name() == method {
 				out = append(out, stepCall{c, c.Common().Value})
 			}
 			continue
@@ -676,7 +681,7 @@ func c10RangeAll(e *Env, rule, rel, name string) {
 	// the invoked step is steps[i] with i walking the whole slice upwards from 0 (a range statement, or a
 	// counted loop i := 0; i < len(steps); i++), steps being the receiver's field (directly or via a local)
 	found := false
-	for _, sc := range stepCalls(fn, "Run") {
+	for _, sc := range stepCalls(fn, "") {
 		c := sc.c
 		ld, ok := sc.recv.(*ssa.UnOp)
 		if !ok {
